@@ -135,8 +135,8 @@ def copy_(op, dest, src):
 
 @register_qbytestensor_op([torch.ops.aten.div])
 def div(op, input, other):
-    if not is_scalar(other):
-        return op(input.dequantize(), other)
+    if not is_scalar(other) or not isinstance(input, QBytesTensor):
+        return qfallback(op, input, other)
     # We just divide the scale
     return QBytesTensor(input.qtype, input.axis, input.size(), input.stride(), input._data, op(input._scale, other))
 
